@@ -11,10 +11,17 @@
    C15_no_invalid_marker_sequential, C15_acked_visible_sequential + C15_acked_not_lost_sequential (an acknowledged
    change is in the store and later operations on other databases / loads never touch it),
    C15_rejected_no_change_clean, C15_never_stuck_sequential (the proved part of progress_after_crash).
-   PARTIAL / not proved: acked_not_lost under races (refuted for a creator stalled longer than the retry
-   timeout), progress_after_crash (refuted: left-over in-flight markers block unrelated creates); both are
-   monitored on the implementation by the harness. *)
-From SG Require Import Base.Prelude C15.ConfigProto C15.ProtoOwn C15.ProtoLocal C15.ProtoSeq C15.ProtoClean.
+   FULL over ALL interleavings of racing nodes under the four explicit schedule conditions of ProtoRace.v
+   (no_giveup_while_alive, no_stale_giveup, no_overlap_with_finalize, prompt_rollback -- each necessary:
+   C15_Refuted.v): C15_version_linkage_racing, C15_registry_ownership_racing, C15_acked_visible_racing +
+   C15_acked_not_lost_racing.  Node-local application of loaded configs (ConfigApply.v): C15_apply_monotone_cas,
+   C15_apply_no_shared_collection, C15_apply_converges (+ C15_apply_reaches_loaded).  C15_get_configs_terminates.
+   PARTIAL / not proved: the unconditional racing statements (refuted, also WITHOUT any stalled node:
+   C15_Refuted.acked_lost_to_stale_wait / acked_lost_to_delete_finalize), progress_after_crash (refuted: left-over
+   in-flight markers block unrelated creates), unconditional apply_converges (refuted: two databases that swapped
+   collections are never applied). *)
+From SG Require Import Base.Prelude C15.ConfigProto C15.ProtoOwn C15.ProtoLocal C15.ProtoSeq C15.ProtoClean
+  C15.ProtoRace C15.ProtoRaceMain C15.ConfigApply C15.ApplyProofs C15.ProtoTerm.
 Open Scope N_scope.
 
 (* registry_ownership -- ALL interleavings, crash points and timer expiries.  Own R: for any two distinct
@@ -167,3 +174,127 @@ Example C15_nonvacuous :
   regc (w_st (run ops evs)) = [(1, RE (RV (1,1) [1;2]) None)] /\
   map result_of (w_nodes (run ops evs)) = [Some ROk; None; Some (RLoaded [(1, CF (1,1) [1;2])])].
 Proof. vm_compute. repeat split; auto. Qed.
+
+(* ================= racing nodes: ALL interleavings under explicit schedule conditions ================= *)
+(* The conditions are decidable tests of each event in the world it runs in (ProtoRace.v):
+   no_giveup_while_alive   a waiting read gives up only when no node that persisted its registry change for that
+                           database and has not yet written / deleted the config document is alive;
+   no_stale_giveup         ... and only when the waiter's view of that database's registry entry is the stored one;
+   no_overlap_with_finalize  no change of a database is started (step-2 registry write) while another alive node
+                           is in the finalize phase of a change of that database;
+   prompt_rollback         the fence (touch) of a roll-back is written only while the repairer's view of that
+                           database's registry entry is still the stored one.
+   race_hyps is their conjunction over the whole schedule. *)
+Theorem C15_race_hyps_def : forall ops evs,
+  race_hyps ops evs =
+  no_giveup_while_alive ops evs && no_stale_giveup ops evs && no_overlap_with_finalize ops evs && prompt_rollback ops evs.
+Proof. reflexivity. Qed.
+Print Assumptions C15_race_hyps_def.
+
+(* version_linkage for racing nodes: at EVERY step of EVERY interleaving, crash point and timer expiry *)
+Theorem C15_version_linkage_racing : forall ops evs d,
+  race_hyps ops evs = true ->
+  linked (aget (regc (w_st (run ops evs))) d) (aget (s_cfg (w_st (run ops evs))) d).
+Proof. exact version_linkage_racing. Qed.
+Print Assumptions C15_version_linkage_racing.
+
+(* registry_ownership for racing nodes, without the ghost-flag side condition *)
+Theorem C15_registry_ownership_racing : forall ops evs R c,
+  race_hyps ops evs = true -> s_reg (w_st (run ops evs)) = Some (c, R) -> Own R.
+Proof. exact registry_ownership_racing. Qed.
+Print Assumptions C15_registry_ownership_racing.
+
+(* acked_not_lost for racing nodes: the step that acknowledges a change leaves exactly that change in the store ... *)
+Theorem C15_acked_visible_racing : forall ops evs i ex pk nd nd',
+  race_hyps ops (evs ++ [Step i ex pk]) = true ->
+  nth_error (w_nodes (run ops evs)) i = Some nd -> n_pc nd <> PDone ROk ->
+  nth_error (w_nodes (run ops (evs ++ [Step i ex pk]))) i = Some nd' -> n_pc nd' = PDone ROk ->
+  acked_state (n_op nd') (w_st (run ops (evs ++ [Step i ex pk]))).
+Proof. exact acked_visible_racing. Qed.
+Print Assumptions C15_acked_visible_racing.
+
+(* ... and once a database is steady (in particular after an acknowledged create or update) every later step of
+   every node that does not target it -- racing creates / updates / deletes of other databases, loaders and their
+   roll-backs, crashes -- leaves its registry entry and its config document exactly as they are *)
+Theorem C15_acked_not_lost_racing : forall ops evs1 evs2 d,
+  race_hyps ops (evs1 ++ evs2) = true ->
+  steady (w_st (run ops evs1)) d ->
+  (forall i o, steps_of evs2 i -> nth_error ops i = Some o -> is_load o = true \/ d <> op_db o) ->
+  same_db (w_st (run ops evs1)) (w_st (run ops (evs1 ++ evs2))) d.
+Proof. exact acked_not_lost_racing. Qed.
+Print Assumptions C15_acked_not_lost_racing.
+
+(* ================= node-local application of loaded configs (rest/config.go) ================= *)
+(* apply_monotone_cas: a node never replaces a running database config by an older one; what it runs afterwards
+   is what it ran before or the loaded config *)
+Theorem C15_apply_monotone_cas : forall r loaded still d old new,
+  (forall x, In x loaded -> a_cas (snd x) <> 0) ->
+  aget r d = Some old -> aget (fetch_and_load r loaded still) d = Some new ->
+  a_cas old <= a_cas new /\ (new = old \/ In (d, new) loaded).
+Proof. exact apply_monotone_cas. Qed.
+Print Assumptions C15_apply_monotone_cas.
+
+(* apply_no_shared_collection: no two running databases of a node share a collection -- whatever is loaded (the
+   check of _applyConfig makes this independent of registry_ownership of the loaded set) *)
+Theorem C15_apply_no_shared_collection : forall r loaded still,
+  NoShare r -> NoShare (fetch_and_load r loaded still).
+Proof. exact apply_no_shared_collection. Qed.
+Print Assumptions C15_apply_no_shared_collection.
+
+(* apply_converges: two nodes that load the same set of configs -- whatever each was running, in whatever order
+   each applies them -- end with the same running configs, namely the loaded ones, provided the loaded set
+   satisfies registry_ownership (OwnL) and no loaded config wants a collection that another listed database still
+   holds in its RUNNING version on that node (compatible); [coherent]: CAS values identify config documents.
+   A node that runs nothing satisfies the side conditions (fresh_compatible). *)
+Theorem C15_apply_converges : forall r1 r2 l1 l2,
+  sorted_keys r1 -> sorted_keys r2 -> (forall x, In x l1 <-> In x l2) ->
+  (forall x, In x l1 -> is_invalid (a_ver (snd x)) = false) ->
+  OwnL l1 -> FunL l1 -> (forall x, In x l1 -> a_cas (snd x) <> 0) ->
+  compatible r1 l1 -> coherent r1 l1 -> compatible r2 l1 -> coherent r2 l1 ->
+  forall d, aget (fetch_and_load r1 l1 []) d = aget (fetch_and_load r2 l2 []) d.
+Proof. exact apply_converges. Qed.
+Print Assumptions C15_apply_converges.
+
+Theorem C15_apply_reaches_loaded : forall r l,
+  sorted_keys r -> (forall x, In x l -> is_invalid (a_ver (snd x)) = false) ->
+  OwnL l -> FunL l -> compatible r l -> coherent r l -> (forall x, In x l -> a_cas (snd x) <> 0) ->
+  forall d, aget (fetch_and_load r l []) d = cfg_of l d.
+Proof. exact apply_reaches_loaded. Qed.
+Print Assumptions C15_apply_reaches_loaded.
+
+(* not proved: convergence without the [compatible] side condition -- REFUTED (C15_Refuted.apply_swap_never_converges) *)
+Definition C15_apply_converges_full_statement : Prop :=
+  forall r l, sorted_keys r -> NoShare r -> OwnL l -> FunL l -> coherent r l ->
+    (forall x, In x l -> a_cas (snd x) <> 0 /\ is_invalid (a_ver (snd x)) = false) ->
+    exists k, forall d, aget (Nat.iter k (fun r0 => fetch_and_load r0 l []) r) d = cfg_of l d.
+
+(* ================= termination ================= *)
+(* GetDatabaseConfigs whose waiting loops give up, run while no other node takes a step, returns within
+   5 * (number of registry entries + 4) of its own storage calls -- from ANY store with a sorted registry *)
+Theorem C15_get_configs_terminates : forall st ops i evs,
+  sorted_keys (regc st) -> nth_error ops i = Some OLoad ->
+  Forall (fun e => exists pk, e = Step i true pk) evs ->
+  (5 * (length (regc st) + 4) <= length evs)%nat ->
+  exists nd r, nth_error (w_nodes (run_from st ops evs)) i = Some nd /\ n_pc nd = PDone r.
+Proof. exact get_configs_terminates. Qed.
+Print Assumptions C15_get_configs_terminates.
+
+(* non-vacuity of the racing theorems: two creators racing (one loses the registry CAS and retries), an updater
+   that crashes after its registry write, two loaders racing to roll it back -- not crash-sequential, all four
+   conditions hold along the whole schedule, both loaders return the rolled-back state *)
+Example C15_racing_nonvacuous :
+  let S := fun i => Step i true 0 in
+  let ops := [OInsert 1 1 [1]; OInsert 2 2 [2]; OUpdate 1 3 [1;3]; OLoad; OLoad] in
+  let evs := [S 0; S 1; S 0; S 1; S 0; S 1; S 0; S 1; S 1; S 1; S 1;
+              S 2; Step 3 true 1; S 2; Step 3 true 1; S 2; Crash 2;
+              Step 3 true 1; Step 4 true 1; Step 4 true 1; Step 4 true 1; Step 3 true 1; Step 4 true 1;
+              Step 3 true 1; Step 3 true 1; Step 3 true 1; Step 3 true 2; Step 3 true 2;
+              Step 4 true 1; Step 4 true 1; Step 4 true 1; Step 4 true 1; Step 4 true 2; Step 4 true 2]%nat in
+  race_hyps ops evs = true /\ ~ sequential evs /\
+  map result_of (w_nodes (run ops evs)) =
+    [Some ROk; Some ROk; None; Some (RLoaded [(1, CF (1,1) [1]); (2, CF (1,2) [2])]);
+     Some (RLoaded [(1, CF (1,1) [1]); (2, CF (1,2) [2])])].
+Proof.
+  cbv zeta. split; [vm_compute; reflexivity|]. split; [|vm_compute; reflexivity].
+  unfold sequential. cbn. intros (_ & _ & H & _). lia.
+Qed.
